@@ -183,3 +183,60 @@ func drive(s *Sim, w World, lim Limits) {
 		}
 	}
 }
+
+// TimedWorld is implemented by worlds that support timed mode: real goroutine
+// concurrency on the fake clock, for the race detector (DESIGN §2.3).
+type TimedWorld interface {
+	World
+	// TimedRun starts every party and returns when the workload is over.
+	TimedRun(s *Sim)
+}
+
+// RunTimed executes one timed-mode run. The interleaving is decided by the Go
+// runtime (not replayed exactly); latencies and workload are functions of the seed.
+func RunTimed(t *testing.T, mk func() World, seed uint64) (res RunResult) {
+	res.Seed = seed
+	wd := time.AfterFunc(watchdog, func() {
+		buf := make([]byte, 1<<20)
+		n := runtime.Stack(buf, true)
+		fmt.Fprintf(os.Stderr, "WATCHDOG seed=%d: timed run exceeded %v wall clock\n%s\n", seed, watchdog, buf[:n])
+		os.Exit(2)
+	})
+	defer wd.Stop()
+	rand.Seed(int64(seed))
+	cryptotest.SetGlobalRandom(t, seed)
+	tape := NewSeedTape(seed)
+	var s *Sim
+	func() {
+		defer func() {
+			if r := recover(); r != nil {
+				res.Harness = fmt.Sprint(r)
+			}
+		}()
+		synctest.Test(t, func(t *testing.T) {
+			s = newSim(tape, false)
+			s.TB = t
+			s.Timed = true
+			w, ok := mk().(TimedWorld)
+			if !ok {
+				panic("world does not support timed mode")
+			}
+			w.Init(s)
+			w.TimedRun(s)
+			s.simEnd = s.Now()
+			s.passthrough.Store(true)
+			w.Shutdown(s)
+			time.Sleep(24 * time.Hour)
+			synctest.Wait()
+		})
+	}()
+	if s != nil {
+		res.Steps = s.step
+		res.SimTimeMs = int64(s.simEnd / time.Millisecond)
+		res.Faults = s.Faults
+		res.Probes = s.Probes
+		res.Violations = s.Violations
+	}
+	res.Hash = fmt.Sprintf("timed-%d", seed)
+	return res
+}
